@@ -963,6 +963,9 @@ std::optional<EdgeInputsRange> ImplicitDepLoader::LoadDepFile(
     CanonicalizePath(const_cast<char*>(o->str_), &o->len_, &unused);
     matches m(o);
     if (std::find_if(edge->outputs_.begin(), edge->outputs_.end(), m) == edge->outputs_.end()) {
+      // A dyndep file that has yet to be loaded may still add this output.
+      if (edge->dyndep_ && edge->dyndep_->dyndep_pending())
+        continue;
       *err = path + ": depfile mentions '" + o->AsString() + "' as an output, but no such output was declared";
       return std::nullopt;
     }
